@@ -196,7 +196,7 @@ def b_assemble(V, cfg):
     import pymoto as pym
     dom = domain(V, cfg)
     which = cfg["which"]
-    x = V.reals("x", dom.nel)
+    x = V.cplxs("x", dom.nel) if cfg.get("cplx_x") else V.reals("x", dom.nel)      # complex scaling (damping, PML) is admissible
     sig = pym.Signal("x", x)
     kw = {}
     if cfg.get("bc") is not None:
@@ -734,6 +734,8 @@ def module_grid(tier):
     add("assemble", "stiffness-stress", which="stiffness", mesh=(1, 1, 0), plane="stress")
     add("assemble", "general-const", which="general", mesh=(1, 1, 0), add_constant=True)
     add("assemble", "general-csr", which="general", mesh=(2, 1, 0), csr=True)
+    add("assemble", "general-complex-x", which="general", mesh=(2, 1, 0), cplx_x=True, logical_dtype=True)
+    add("assemble", "general-complex-x-bc", which="general", mesh=(1, 1, 0), cplx_x=True, bc=[0], logical_dtype=True)
     add("assemble", "general-ndof2", which="general", mesh=(1, 1, 0), ndof=2)
     add("assemble", "mass-ndof2", which="mass", mesh=(2, 1, 0), ndof=2)
     for which in ("Strain", "Stress", "ElementAverage", "ElementOperation"):
